@@ -203,6 +203,19 @@ def judge(case, m):
     more["junk_obj"] = pd.Series([("t", i) for i in range(n)], dtype=object, index=more.index)
     more["junk_dup"] = more["x"].to_numpy()
     more.insert(0, "junk_first", np.arange(n)[::-1])
+    # unused columns NAMED like the string literals / keyword names / callees of the formula, full of NaN:
+    # only names in expression position are variables
+    from fmon.ref import grammar as G
+
+    try:
+        toks = G.tokenize(text, add_intercept=False)
+        for t in toks:
+            nm = t.value if t.kind == "STR" else (t.lex if t.kind == "ID" else None)
+            if nm and nm not in more.columns and nm not in used and (t.kind == "STR" or nm in ("levels", "ref", "omit", "df", "degree",
+                                                                      "knots", "by", "raw", "intercept", "np")):
+                more[nm] = np.nan
+    except G.NotSentence:
+        pass
     run("unused-columns", more, None, "unused columns added")
     keep = [c for c in df.columns if c in used]
     if keep:
